@@ -619,6 +619,23 @@ func (fsm *fsm) stateChange(nextState bgp.FSMState, reason *fsmStateReason) {
 		slog.String("reason", reason.String()))
 
 	switch nextState {
+	case bgp.BGP_FSM_OPENCONFIRM:
+		// RFC 4271 8.2.2: once a valid OPEN has been received the hold timer is set
+		// to the negotiated value and the keepalive timer is started, i.e. the
+		// negotiated timers must be known in OpenConfirm, not only in Established.
+		if fsm.recvOpen != nil {
+			holdTime := float64(fsm.recvOpen.Body.(*bgp.BGPOpen).HoldTime)
+			myHoldTime := conf.Timers.Config.HoldTime
+			if holdTime > myHoldTime {
+				holdTime = myHoldTime
+			}
+			conf.Timers.State.NegotiatedHoldTime = holdTime
+			keepalive := conf.Timers.Config.KeepaliveInterval
+			if holdTime < myHoldTime {
+				keepalive = holdTime / 3
+			}
+			conf.Timers.State.KeepaliveInterval = keepalive
+		}
 	case bgp.BGP_FSM_ESTABLISHED:
 		remoteTCP := fsm.conn.RemoteAddr().(*net.TCPAddr)
 		remoteAddr, _ := netip.AddrFromSlice(remoteTCP.IP)
